@@ -284,6 +284,28 @@ func ruleR13b(c *Ctx) {
 			}
 			c.check(assigned, rule, key, um.Pos(), "UnmarshalJSON assigns the field", "UnmarshalJSON of "+named.Obj().Name()+" never assigns "+f.Name())
 		}
+		// a custom decoder must hand the other fields over untouched: every non-interface field is stored
+		// from the same-named field of the decoded auxiliary value, not from the result of a call
+		if um := c.Fn(pkgLedger, named.Obj().Name()+".UnmarshalJSON"); um != nil && len(um.Blocks) > 0 {
+			for i := 0; i < st.NumFields(); i++ {
+				f := st.Field(i)
+				if _, isIface := f.Type().Underlying().(*types.Interface); isIface {
+					continue
+				}
+				for _, b := range um.Blocks {
+					for _, ins := range b.Instrs {
+						v, base, ok := storeToField(ins, f)
+						if !ok || !isNamed(base.Type(), pkgLedger, named.Obj().Name()) {
+							continue
+						}
+						src, _ := anyFieldRead(v)
+						key := "decoder:" + named.Obj().Name() + "." + f.Name() + ":copied-as-decoded"
+						c.check(src != nil && src.Name() == f.Name(), rule, key, ins.Pos(), "stored from the same-named field of the decoded value",
+							"UnmarshalJSON of "+named.Obj().Name()+" does not store "+f.Name()+" exactly as decoded (it is computed or comes from another field): the entry read back differs from the entry written (e.g. null vs {} metadata) and its recomputed hash no longer matches")
+					}
+				}
+			}
+		}
 	}
 }
 
